@@ -93,7 +93,7 @@ CHECKS = {
                 note="DLC is only constrained for representable lengths.",
                 technique="bounded exhaustive enumeration of builder inputs x prior object contents with independent layout oracle and fresh-object differential"),
     "C14": dict(level="model_checking", design="4/C14",
-                text="All ordered (source, target) pairs of a 24-packet pool (payload-less, zero-length payloads, equal-looking, one member per single-field difference, typed, decoder-produced) x copy/move construction and assignment, self assignments, all two-assignment sequences, equality laws on all pairs; the same for 9 Payload and 6 TECMP::Payload objects; observation through all getters under ASan in forked workers.",
+                text="All ordered (source, target) pairs of a 27-packet pool (payload-less, zero-length payloads, equal-looking, one member per single-field difference, typed, decoder-produced) x copy/move construction and assignment, self assignments, all two-assignment sequences, equality laws on all pairs; the same for 13 Payload and 10 TECMP::Payload objects; observation through all getters under ASan in forked workers.",
                 note="Equality must agree with field-by-field comparison only for non-empty payloads (as the property states).",
                 technique="exhaustive enumeration of object pairs x value operations (2-step histories) on the real classes"),
     "C16": dict(level="model_checking", design="4/C16",
